@@ -217,6 +217,15 @@ def run(pid, tier, seed, rundir, model_run):
                 victim = sorted(local)[rng.below(len(local))]
                 other = b"committed by client 2 " + str(i).encode()
                 l2 = sb.path("local2"); sb.write_tree(l2, {victim: other})
+                if (i // 4) % 2 == 1:
+                    # some client pushed a file BELOW a directory named exactly like the conflict copy client 1's losing Put would get:
+                    # the name is taken (by a directory — nothing there can be hashed), the copy must land on the next free name
+                    blocker = f"{victim}.conflict-{blake3_hex([local[victim]])[0][:12]}/keep"
+                    if not any(x == blocker or x.startswith(blocker + "/") or blocker.startswith(x + "/") for x in list(hub0) + list(local) if x != victim):
+                        hub0[blocker] = b"below the conflict-copy name"
+                        sb.write_tree(hubroot, {blocker: hub0[blocker]})
+                        rep["hub_before"] = sorted(hub0)
+                        count("stale/directory-under-the-conflict-copy-name")
                 rdir = sb.path("relay"); os.makedirs(rdir)
                 env = dict(sb.env, PATH=os.path.join(VERIF, "tools", "sshrelay") + ":" + sb.env["PATH"], RELAY_DIR=rdir)
                 p1 = subprocess.Popen([CLI_BIN, "hub-sync", lroot, f"{HOST}:{hubroot_rel}"], env=env, cwd=sb.dir, stdout=subprocess.PIPE, stderr=subprocess.PIPE)
@@ -251,7 +260,7 @@ def run(pid, tier, seed, rundir, model_run):
                     if k in replaced_later:
                         count("stale/skipped-file-replaced-by-client-2(excused)")
                         continue
-                    if hub1.get(k) != v and hub1.get(cc) != v:
+                    if hub1.get(k) != v and not any(hub1.get(cc + sfx) == v for sfx in ("", "-1", "-2", "-3")):
                         res["violations"].append(("local-file-not-retrievable-after-conflict", f"after the run (rc {rc1}) local file {k} is on the hub neither at its path nor as {cc}", rep))
                 # nothing client 2 committed may be overwritten
                 if rc2 == 0 and paused and hub1.get(victim) != other and local[victim] != other and hub0.get(victim) != local[victim]:
